@@ -220,8 +220,7 @@ theorem invG_step {own : String} {s s' : State} {l : Label} (h : InvG s) (hg : G
           intro p' hp' hal _
           simp only [Option.some.injEq] at hp'
           subst hp'
-          have hrv := hg p hp hal
-          have := h5 p hp hal hrv
+          have := hg p hp hal
           simpa [required] using this
         · cases hs
       · cases hs
@@ -390,7 +389,7 @@ def afterCycle (own : String) (s : State) (e : Env) : State :=
 
 theorem cycle_run (own : String) (s : State) (e : Env) (hg : s.gone = false) (hp : s.pending = none) :
     run own s (cycleLabels s e) = some (afterCycle own s e) := by
-  rcases e with ⟨c, m, oc, od, mc, dr⟩
+  rcases e with ⟨c, m, oc, od, mc, uf, dr⟩
   cases m <;> cases mc <;>
     simp [cycleLabels, run, step, stepDecide, stepMerge, stepJson, hg, hp, afterCycle] <;>
     split <;> simp_all
